@@ -283,10 +283,62 @@ def g4_aggregation(ctx):
     ctx.consult(add)
 
 
+def _carried_mutable_state(f, lp):
+    """Locals defined outside loop `lp` that are mutated inside it (state carried from one bloc to the next)."""
+    inside_defs = set()
+    for n in ast.walk(ast.Module(body=lp.body, type_ignores=[])):
+        if isinstance(n, ast.Name) and isinstance(n.ctx, ast.Store):
+            inside_defs.add(n.id)
+    out = []
+    mut = {"update", "append", "extend", "add", "insert", "remove", "pop", "clear", "discard", "setdefault"}
+    for n in ast.walk(ast.Module(body=lp.body, type_ignores=[])):
+        recv = None
+        if isinstance(n, ast.Call) and isinstance(n.func, ast.Attribute) and n.func.attr in mut and isinstance(n.func.value, ast.Name):
+            recv = n.func.value.id
+        elif isinstance(n, ast.AugAssign) and isinstance(n.target, ast.Name):
+            recv = n.target.id
+        elif isinstance(n, ast.Assign) and isinstance(n.targets[0], ast.Subscript) and isinstance(n.targets[0].value, ast.Name):
+            recv = n.targets[0].value.id
+            key = astx.u(n.targets[0].slice)
+            if key in astx.assigned_names(lp.target):
+                recv = None  # result table keyed by the bloc itself
+        if recv is not None and recv not in inside_defs and recv not in ("self",):
+            out.append((n, recv))
+    return out
+
+
+def g5_no_cross_bloc_state(ctx):
+    prog = ctx.prog
+    n = 0
+    for f in _gen_functions(prog):
+        for lp in (x for x in astx.walk_own(f.node) if isinstance(x, ast.For)):
+            if not re.search(r"self\.blocs|bloc_voter_prop", astx.u(lp.iter)):
+                continue
+            if astx.enclosing(lp, astx.parents(f.node), ast.For) is not None:
+                continue  # only the outer per-bloc loop
+            n += 1
+            carried = _carried_mutable_state(f, lp)
+            if not carried:
+                ctx.ok(f, lp, f"{f.short}: nothing mutable is carried from one bloc's iteration into the next", f"for {astx.u(lp.target)} in {astx.u(lp.iter)}")
+            for node, name in carried:
+                ctx.violated(f, node, f"{f.short}: `{name}` is created outside the per-bloc loop and mutated inside it",
+                             f"`{astx.u(node)[:70]}`: state of earlier blocs (e.g. their zero-support candidates or pool) leaks into later blocs' ballots")
+    if n < 7:
+        ctx.vanished(f"per-bloc loops: only {n} found")
+    # zero-support candidates survive interval combination (shared with C15.R2)
+    from rules import c15
+    sub = type(ctx)(prog, ctx.prop, ctx.tier)
+    c15.r2_combine(sub)
+    for o in sub.obs:
+        o.rule = "C14.G5"
+        ctx.obs.append(o)
+
+
 RULES = [
     ("C14.G1", g1_apportionment, 11, "8 apportionment calls agree: Huntington-Hill of number_of_ballots, keys aligned with proportions; crossover shares"),
     ("C14.G2", g2_draw_table, 9, "draw table: rankings without replacement / full size, cumulative with replacement / num_votes; short-PL lengths"),
     ("C14.G3", g3_shape, 20, "ballot shape: singleton positions, zero-support tail, unit weights / counts, pool size = apportioned count"),
+    ("C14.G5", g5_no_cross_bloc_state, 10, "no mutable state is carried across blocs; zero-support candidates survive interval combination"),
     ("C14.G4", g4_aggregation, 7, "aggregate = fold of + over per-bloc profiles; by_bloc returns (dict, aggregate)"),
 ]
 
@@ -309,5 +361,12 @@ FAULTS = [
     ("PL pool one short", [(BGP, "            for i in range(num_ballots):\n                # generates ranking based on probability distribution of non candidate support", "            for i in range(num_ballots - 1):\n                # generates ranking based on probability distribution of non candidate support")], "C14.G3"),
     ("aggregate misses last bloc", [(BGP, "        # combine the profiles\n        pp = PreferenceProfile(ballots=tuple())\n        for profile in pp_by_bloc.values():\n            pp += profile", "        # combine the profiles\n        pp = PreferenceProfile(ballots=tuple())\n        for profile in list(pp_by_bloc.values())[:-1]:\n            pp += profile")], "C14.G4"),
     ("by_bloc returns aggregate first", [(BGP, "        if by_bloc:\n            return (pp_by_bloc, pp)\n\n        # else return the combined profiles\n        else:\n            return pp\n\n\nclass name_PlackettLuce", "        if by_bloc:\n            return (pp, pp_by_bloc)\n\n        # else return the combined profiles\n        else:\n            return pp\n\n\nclass name_PlackettLuce")], "C14.G4"),
+]
+PI = "src/votekit/pref_interval.py"
+FAULTS += [
+    ("zero cands accumulated across blocs", [(BGP, "        pref_profile_by_bloc = {}\n\n        for i, bloc in enumerate(self.blocs):\n            # number of voters in this bloc\n            num_ballots = ballots_per_block[bloc]\n            ballot_pool = [Ballot()] * num_ballots\n            pref_intervals = self.pref_intervals_by_bloc[bloc]\n            zero_cands = set(\n                it.chain(*[pi.zero_cands for pi in pref_intervals.values()])\n            )\n\n            slate_to_non_zero_candidates",
+                                              "        pref_profile_by_bloc = {}\n        zero_cands: set = set()\n\n        for i, bloc in enumerate(self.blocs):\n            # number of voters in this bloc\n            num_ballots = ballots_per_block[bloc]\n            ballot_pool = [Ballot()] * num_ballots\n            pref_intervals = self.pref_intervals_by_bloc[bloc]\n            zero_cands.update(\n                it.chain(*[pi.zero_cands for pi in pref_intervals.values()])\n            )\n\n            slate_to_non_zero_candidates")], "C14.G5"),
+    ("pool shared by blocs", [(BGP, "        for i, bloc in enumerate(self.blocs):\n            ballot_pool = []\n            num_bloc_ballots", "        ballot_pool = []\n        for i, bloc in enumerate(self.blocs):\n            num_bloc_ballots")], "C14.G5"),
+    ("combine skips zero sets of zero-share slates", [(PI, "    zero_cands = frozenset.union(*[pi.zero_cands for pi in intervals])", "    zero_cands = frozenset.union(*[pi.zero_cands for pi, prop in zip(intervals, proportions) if prop > 0] or [frozenset()])")], "C14.G5"),
 ]
 BENIGN = []
